@@ -233,3 +233,43 @@ def rel_matches(rel, want, swapped):
     if rel is None:
         return False
     return (_SWAP[rel] if swapped else rel) == want
+
+
+# -- closure captures ----------------------------------------------------------------------------------
+
+def closure_site(prog, cf):
+    """(parent function, aggregate statement) creating closure `cf`."""
+    parent = prog.funcs.get(cf.raw.get("parent", ""))
+    if parent is None:
+        return None
+    for b in parent.blocks:
+        for s in b["s"]:
+            if s["k"] == "assign" and s["rv"][0] == "agg" and s["rv"][1].get("k") == "closure" and s["rv"][1].get("def") == cf.key:
+                return parent, s
+    return None
+
+
+def upvar_origins(prog, cf, sl, _depth=0):
+    """for a slice computed inside closure `cf`: the (function, locals) in enclosing functions that
+    the captured variables it reads derive from.  Returns list of (func, set of locals)."""
+    out = []
+    idxs = set()
+    for pl in sl["places"]:
+        if pl[0] == 1:
+            for e in pl[1:]:
+                if isinstance(e, str) and e.startswith("."):
+                    idxs.add(int(e[1:].split(":")[0]))
+                    break
+    site = closure_site(prog, cf)
+    if not site or not idxs:
+        return out
+    parent, st = site
+    for k in sorted(idxs):
+        if k >= len(st["rv"][2]):
+            continue
+        op = st["rv"][2][k]
+        psl = parent.slice_of_operand(op, at=st["_pos"])
+        out.append((parent, psl["locals"]))
+        if parent.raw.get("kind") == "Closure" and 1 in psl["locals"] and _depth < 4:
+            out += upvar_origins(prog, parent, psl, _depth + 1)
+    return out
